@@ -1,7 +1,8 @@
 SPECIFICATION Spec
 CONSTANTS
-  MaxLen = 10
+  MaxLen = 8
   Design = "append_first"
+  Alphabet = {"x", "n", "f"}
 INVARIANT Refines
 INVARIANT RefinesEverywhere
 INVARIANT OneBased
